@@ -321,6 +321,7 @@ pub fn run(args: &[String]) -> i32 {
                 }
             }
         }
+        reuse_after_sink_error(&mut out, &schema, &text, &vals);
         // single-object writer, two messages through one instance
         {
             let (schema, vs) = (&schema, vals.clone());
@@ -338,4 +339,52 @@ pub fn run(args: &[String]) -> i32 {
     }
     out.finish(dir, serde_json::json!({"schemas": done}));
     0
+}
+
+/// a sink that accepts `budget` bytes (in pieces of at most 3) and then fails
+struct FailAfter {
+    budget: usize,
+    got: Vec<u8>,
+}
+impl std::io::Write for FailAfter {
+    fn write(&mut self, buf: &[u8]) -> std::io::Result<usize> {
+        if self.budget == 0 {
+            return Err(std::io::Error::new(ErrorKind::Other, "injected"));
+        }
+        let n = buf.len().min(3).min(self.budget);
+        self.budget -= n;
+        self.got.extend_from_slice(&buf[..n]);
+        Ok(n)
+    }
+    fn flush(&mut self) -> std::io::Result<()> {
+        Ok(())
+    }
+}
+
+/// after a sink error a single-object writer that is used again delivers exactly what a fresh writer delivers
+fn reuse_after_sink_error(out: &mut Out, schema: &Schema, text: &str, vals: &[Value]) {
+    let Ok(mut fresh) = GenericSingleObjectWriter::new_with_capacity(schema, 64) else { return };
+    let mut want = Vec::new();
+    if fresh.write_value_ref(&vals[1], &mut want).is_err() {
+        return;
+    }
+    for budget in [0usize, 1, 5, 11] {
+        let case = format!("single-object generic: sink fails after {budget} bytes, then the writer is used again; schema={}", crate::util::trunc(text, 300));
+        let Ok(mut w) = GenericSingleObjectWriter::new_with_capacity(schema, 64) else { return };
+        let mut bad = FailAfter { budget, got: vec![] };
+        let first = crate::util::catch(|| w.write_value_ref(&vals[0], &mut bad));
+        if !matches!(first, Ok(Err(_))) {
+            continue; // the message fitted the budget (or panicked: reported elsewhere)
+        }
+        let mut got = Vec::new();
+        match crate::util::catch(|| w.write_value_ref(&vals[1], &mut got)) {
+            Ok(Ok(n)) => {
+                if got != want || n != want.len() {
+                    out.oracle_fail("reuse-after-sink-error", &format!("the next message is {} (returned {n}), a fresh writer delivers {}", wire::hex(&got), wire::hex(&want)), &case);
+                }
+            }
+            Ok(Err(e)) => out.oracle_fail("reuse-after-sink-error", &format!("the writer refuses every later message: {e}"), &case),
+            Err(()) => out.oracle_fail("panic", "the writer panicked when used again after a sink error", &case),
+        }
+    }
 }
